@@ -39,7 +39,7 @@ REQUIRED_COUNTERS = {'c12_jobs_under_hold': 60, 'c12_lifts_checked': 20,
 SHARD_TIMEOUT = {'quick': 900, 'thorough': 5400}
 
 HOLDS = ['wait', 'after_open', 'after_declined', 'after_unknown',
-         'after_two', 'declined']
+         'after_two', 'declined', 'after_partial']
 NONHOLDS = ['after_merged', 'after_nonnumeric']
 
 
@@ -236,6 +236,33 @@ def run_case(acc, seed, layout, mode, hold, pos):
         chain = world.layout['chain']
         w = world
         dep = dep2 = None
+        if hold == 'after_partial':
+            # the dependency entered the queue, got a new commit, and the
+            # queue was merged: it was only partially merged and stays open
+            dsrc = 'bugfix/TEST-90-dep'
+            dep = w.do('open_pr', src=dsrc, dst=chain[-1])
+            w.do('approve', pr=dep, user=PEER1)
+            for _ in range(3):
+                rec = case.run('pr', dep)
+                if rec['status'] in ('Queued', 'SuccessMessage'):
+                    break
+                for n in w.refs()[0]:
+                    if n == dsrc or (n.startswith('w/') and
+                                     n.endswith('/' + dsrc)):
+                        w.do('set_status', ref='tip:' + n,
+                             state='SUCCESSFUL')
+            if rec['status'] == 'Queued':
+                w.do('push_commit', branch=dsrc)
+                qs = [n for n in w.refs()[0] if n.startswith('q/')]
+                for n in qs:
+                    w.do('set_status', ref='tip:' + n, state='SUCCESSFUL')
+                plain = sorted(n for n in qs if not n.startswith('q/w/'))
+                case.run('commit', 'tip:' + plain[-1])
+            else:
+                w.do('push_commit', branch=dsrc)
+            if w.snapshot().pr(dep)['state'] != 'OPEN':
+                acc.count('c12_setup_failed')
+                return
         if hold in ('after_open', 'after_declined', 'after_two',
                     'after_merged'):
             dsrc = 'bugfix/TEST-90-dep'
@@ -256,6 +283,7 @@ def run_case(acc, seed, layout, mode, hold, pos):
         w.do('approve', pr=pid, user=PEER1)
         text = {'wait': '/wait',
                 'after_open': '/after_pull_request=%s' % dep,
+                'after_partial': '/after_pull_request=%s' % dep,
                 'after_declined': '/after_pull_request=%s' % dep,
                 'after_unknown': '@robot after_pull_request=4242',
                 'after_two': '@robot after_pull_request=%s '
